@@ -624,9 +624,11 @@ breaker('C09', 'init-read-index-forgets-read-only', 'C09.R1', FSPY,
         '''                self._file, file_name, index, tindex, stop,
                 read_only=read_only,
             )
+            self._ltid = tid
             self._save_index()''',
         '''                self._file, file_name, index, tindex, stop,
             )
+            self._ltid = tid
             self._save_index()''')
 breaker('C09', 'save-index-unguarded', 'C09.R1', FSPY,
         'FileStorage._save_index',
@@ -694,18 +696,19 @@ breaker('C09', 'sanity-check-unprotected', 'C09.R3', FSPY, 'FileStorage._sane',
             r = 0''', '''        r = self._check_sanity(index, pos)''')
 breaker('C09', 'index-used-unchecked', 'C09.R4', FSPY,
         'FileStorage._restore_index',
-        '''        if not tid:
+        '''        tid = self._sane(index, pos)
+        if not tid:
             return None
-
-        return index, pos, tid''', '''        return index, pos, tid''')
+''', '''        tid = self._sane(index, pos)
+''')
 breaker('C09', 'scan-from-start-ignores-saved-pos', 'C09.R4', FSPY,
         'FileStorage.__init__',
         'ltid=ltid, start=start, read_only=read_only,',
         'ltid=ltid, read_only=read_only,')
 breaker('C09', 'index-saved-in-place', 'C09.R5', FSPY,
         'FileStorage._save_index',
-        'self._index.save(self._pos, tmp_name)',
-        'self._index.save(self._pos, index_name)')
+        'self._index.save(self._pos, tmp_name, self._ltid)',
+        'self._index.save(self._pos, index_name, self._ltid)')
 twin('C09', 'save-index-guard-inverted', FSPY, 'FileStorage._save_index',
      '''        if self._is_read_only:
             return
@@ -713,7 +716,7 @@ twin('C09', 'save-index-guard-inverted', FSPY, 'FileStorage._save_index',
         index_name = self.__name__ + '.index'
         tmp_name = index_name + '.index_tmp'
 
-        self._index.save(self._pos, tmp_name)
+        self._index.save(self._pos, tmp_name, self._ltid)
 
         try:
             try:
@@ -729,7 +732,7 @@ twin('C09', 'save-index-guard-inverted', FSPY, 'FileStorage._save_index',
             index_name = self.__name__ + '.index'
             tmp_name = index_name + '.index_tmp'
 
-            self._index.save(self._pos, tmp_name)
+            self._index.save(self._pos, tmp_name, self._ltid)
 
             try:
                 try:
@@ -2081,3 +2084,12 @@ twin('C13', 'commit-savepoint-ghost-in-local', CONNPY,
      'if isinstance(self._reader.getGhost(data), Blob):',
      '''ghost = self._reader.getGhost(data)
                 if isinstance(ghost, Blob):''')
+breaker('C09', 'index-tid-not-compared', 'C09.R7', FSPY,
+        'FileStorage._restore_index',
+        '''        saved_tid = info.get('tid')
+        if saved_tid is not None and saved_tid != tid:''',
+        '''        saved_tid = None
+        if saved_tid is not None and saved_tid != tid:''')
+twin('C09', 'index-tid-subscript-form', FSPY, 'FileStorage._restore_index',
+     "        saved_tid = info.get('tid')",
+     "        saved_tid = info['tid'] if 'tid' in info else None")
